@@ -1827,6 +1827,10 @@ func buildCache(typ reflect.Type, cache map[string][]int, parent []int) {
 				buildCache(typ, cache, index)
 			}
 		}
-		cache[field.Name] = index
+		if prev, ok := cache[field.Name]; !ok || len(index) < len(prev) {
+			// as in Go, the shallowest field of a name wins: a promoted field
+			// never shadows a field declared nearer to the top
+			cache[field.Name] = index
+		}
 	}
 }
